@@ -119,6 +119,7 @@ func loadSet(cfg loaderCfg, insertion []string) loadResult {
 	for _, n := range insertion {
 		scripts[n] = scriptText(cfg.Status[n], cfg.Calls[n])
 	}
+	disturbChecker() // the verdict on this set must not depend on what was loaded (and rejected) before
 	var evs []lev
 	installLoaderSink(&evs)
 	acc, errs := engine.ParseScript(scripts, funcs.FuncsMap, funcs.FuncsCheckMap)
